@@ -2,8 +2,7 @@
 from harness import common as C
 from harness import l2
 
-FILES = ["Engine/Toposort.v", "Engine/ToposortProof.v", "Engine/Tagged.v", "Engine/Tower.v", "Engine/Run08.v",
-         "Engine/TaggedProof.v", "Props/C14.v"]
+FILES = ["Engine/Toposort.v", "Engine/ToposortProof.v", "Engine/Tagged.v", "Engine/Tower.v", "Engine/Run08.v", "Engine/TaggedProof.v", "Engine/TowerAlg.v", "Engine/FwdCorrect.v", "Engine/FwdStep.v", "Engine/FwdEval.v", "Engine/TowerRing.v", "Engine/MixInterp.v", "Engine/MixStep.v", "Engine/MixBackward.v", "Engine/MixEval.v", "Props/C14.v"]
 RULE = ("random nested programs in which half of the differentiated bodies do not mention their own variable and "
         "sign() (registered non-differentiable) occurs; plus implementation-only oracle cases with container "
         "arguments and the exported piecewise-constant functions; distinct by program text; non-trivial when a "
